@@ -20,7 +20,7 @@ RULE = (
     "decision function: every string dddd-dd-dd with year 1990..2199, month 00..99, day 00..99 (2.1M, exhaustive; thorough: the complete 10^8 domain years 0000..9999) "
     "plus None/'' : supports_batching(v) == (v < '2025-06-18') == (ProtocolVersion.compare(v,'2025-06-18') < 0); "
     "transport: operation sequences over an entered StdioClient with a scripted child: set_protocol_version(v in none / supported / cutoff neighbours), "
-    "single message line, batch line of 0..4 members mixing valid and invalid items; after every line the delivered messages and the bytes written back are compared "
+    "single message line, batch line of 0..4 members mixing valid and invalid items, stall window (the child stops reading its stdin while k in 0..130 outgoing messages pile up and 1..3 lines arrive, then reads again); after every line the delivered messages and the bytes written back are compared "
     "with the reference for the current mode; non-trivial (decision) = version within 45 days of the cutoff or differing from it in exactly one field; "
     "(transport) = a batch after a mode change or a batch mixing valid and invalid members; distinct = distinct string / distinct sequence"
 )
@@ -149,7 +149,7 @@ def check(case: Dict[str, Any]) -> Outcome:
 
     out = Outcome()
     ops: List[List[Any]] = case["ops"]
-    flags = {"batch_after_mode_change": False, "mixed_batch": False}
+    flags = {"batch_after_mode_change": False, "mixed_batch": False, "stalled_window": False, "rejection_behind_full_queue": False}
 
     async def main() -> None:
         procs: List[FakeProcess] = []
@@ -173,6 +173,77 @@ def check(case: Dict[str, Any]) -> Outcome:
                             last_mode = mode
                         continue
                     accepting = version is None or version < CUTOFF
+                    if op[0] == "stalled":
+                        # the child stops reading its stdin while the application keeps sending (k messages pile up
+                        # behind the blocked write) and the server keeps talking; then the child reads again
+                        k_out, sub = op[1], op[2]
+                        flags["stalled_window"] = True
+                        n_written = len(proc.stdin.writes)
+                        proc.stdin.gate = asyncio.Event()
+                        backlog = [{"jsonrpc": "2.0", "method": "notifications/x", "params": {"i": i_}} for i_ in range(k_out)]
+
+                        async def pile_up() -> None:
+                            for m_ in backlog:
+                                await _write.send(m_)
+
+                        sender = asyncio.ensure_future(pile_up())
+                        await asyncio.sleep(0.01)
+                        want_deliv: List[Any] = []
+                        want_rej = 0
+                        for sop in sub:
+                            if sop[0] == "single":
+                                ms_ = [_member(["v", sop[1]])]
+                                line_: Any = ms_[0]
+                                isb = False
+                            else:
+                                ms_ = [_member(x) for x in sop[1]]
+                                line_ = ms_
+                                isb = True
+                            if isb and not accepting:
+                                want_rej += 1
+                                if k_out > 100:
+                                    flags["rejection_behind_full_queue"] = True
+                            else:
+                                want_deliv += [m for m in ms_ if classify(m)[0] is not None]
+                            proc.stdout.feed((json.dumps(line_) + "\n").encode())
+                            await asyncio.sleep(0.01)
+                        proc.stdin.gate.set()
+                        proc.stdin.gate = None
+                        await asyncio.sleep(0.05)
+                        await sender
+                        await asyncio.sleep(0.05)
+                        got = []
+                        while True:
+                            try:
+                                got.append(read.receive_nowait())
+                            except (anyio.WouldBlock, anyio.EndOfStream):
+                                break
+                        got_wire = [g.model_dump(exclude_none=True) if hasattr(g, "model_dump") else g for g in got]
+                        lines_ = b"".join(d for _, d in proc.stdin.writes[n_written:]).split(b"\n")
+                        if lines_[-1] != b"":
+                            out.fail("stdin-line-unterminated-after-stall", repr(lines_[-1][:80]))
+                            return
+                        rej, others = 0, []
+                        for ln in lines_[:-1]:
+                            try:
+                                w_ = json.loads(ln.decode("utf-8"))
+                            except Exception:
+                                out.fail("stdin-line-not-json-after-stall", repr(ln[:120]))
+                                return
+                            if isinstance(w_, dict) and w_.get("id") is None and isinstance(w_.get("error"), dict) and w_["error"].get("code") == -32600 and "method" not in w_:
+                                rej += 1
+                            else:
+                                others.append(w_)
+                        if rej != want_rej:
+                            out.fail("batch-rejection-lost-or-duplicated-under-backpressure", f"step {step} version {version!r}: {rej} rejection lines for {want_rej} rejected batches; {k_out} messages were queued behind the blocked write")
+                            return
+                        if len(others) != len(backlog) or any(first_diff(a, b) for a, b in zip(others, backlog)):
+                            out.fail("queued-messages-lost-or-reordered-by-stall", f"step {step}: wrote {len(others)} of {len(backlog)} queued messages")
+                            return
+                        if len(got_wire) != len(want_deliv) or any(first_diff(a, b) for a, b in zip(got_wire, want_deliv)):
+                            out.fail("deliveries-differ-during-stall", f"step {step} version {version!r}: got {got_wire!r} want {want_deliv!r}")
+                            return
+                        continue
                     if client.is_batching_enabled() is not accepting:
                         out.fail("client-batching-mode-differs-from-version", f"step {step}: version {version!r} enabled={client.is_batching_enabled()}")
                         return
@@ -255,8 +326,12 @@ _op = st.one_of(
 )
 
 
+_sub = st.one_of(st.tuples(st.just("single"), st.integers(0, 4)).map(list), st.tuples(st.just("batch"), st.lists(_member_spec, max_size=3)).map(list))
+_stalled = st.tuples(st.just("stalled"), st.sampled_from([0, 1, 5, 99, 100, 101, 102, 130]), st.lists(_sub, min_size=1, max_size=3)).map(list)
+
+
 def cases():
-    return st.lists(_op, min_size=1, max_size=30).map(lambda ops: {"ops": ops})
+    return st.lists(st.one_of(_op, _op, _op, _op, _stalled), min_size=1, max_size=30).map(lambda ops: {"ops": ops})
 
 
 def job_hyp(col: Collector, seed: int, tier: str, shard: int, n: int) -> None:
@@ -271,7 +346,13 @@ def job_matrix(col: Collector, seed: int, tier: str) -> None:
         for sh in shapes:
             case = {"ops": [["version", vi], ["batch", sh], ["single", 1], ["version", (vi + 1) % len(VERSIONS)], ["batch", sh]]}
             col.record(case, check(case))
-    col.exhaustive_parts.append(f"{len(VERSIONS)} versions x {len(shapes)} batch shapes (<=2 members over 4 member kinds), each followed by a version change and the same batch")
+    # the same decision while the child is not reading its stdin and k messages are queued behind the blocked write
+    for vi in range(len(VERSIONS)):
+        for k in (0, 1, 99, 100, 101, 130):
+            for sub in ([["batch", [["v", 0]]]], [["single", 1], ["batch", [["v", 0], ["i", 0]]], ["batch", []]]):
+                case = {"ops": [["version", vi], ["stalled", k, sub], ["batch", [["v", 2]]]]}
+                col.record(case, check(case))
+    col.exhaustive_parts.append(f"{len(VERSIONS)} versions x {len(shapes)} batch shapes (<=2 members over 4 member kinds), each followed by a version change and the same batch; {len(VERSIONS)} versions x 6 backlog sizes (0..130 queued messages behind a blocked stdin) x 2 inbound line sequences")
 
 
 JOBS = {"decision": job_decision, "hyp": job_hyp, "matrix": job_matrix}
